@@ -54,6 +54,7 @@ package main
 
 import (
 	"fmt"
+	"go/constant"
 	"go/token"
 	"go/types"
 	"sort"
@@ -462,10 +463,13 @@ func (c *fnCtx) setup7() {
 	c.globAddr = map[*ssa.IndexAddr]globAddrInfo{}
 	c.ctorAlias = map[ssa.Value]bool{}
 	c.opaque = map[*ssa.Parameter]bool{}
+	c.sprintfSkip = map[ssa.Instruction]bool{}
+	c.sprintfArgs = map[*ssa.Call][2]ssa.Value{}
 	if c.gen < 7 || c.isClosure {
 		return
 	}
 	f := c.f
+	c.scanSprintf()
 	// initialiser?
 	if ii := c.tr.initOf(f); ii != nil {
 		c.init7 = ii
@@ -609,6 +613,15 @@ func (c *fnCtx) killClass(cur map[int]string, v ssa.Value) {
 
 // emit7: the instructions of generation 7.  false = not one of them.
 func (c *fnCtx) emit7(in ssa.Instruction, ind int, cur map[int]string) bool {
+	if c.sprintfSkip[in] {
+		return true // builds the argument list of a recognised fmt.Sprintf call
+	}
+	if call, ok := in.(*ssa.Call); ok {
+		if a, ok := c.sprintfArgs[call]; ok {
+			c.let(ind, call, fmt.Sprintf("%ssprintfBinPad %s %s", c.useGoSem7(), c.asInt(a[0]), c.operand(a[1])))
+			return true
+		}
+	}
 	switch v := in.(type) {
 	case *ssa.Alloc:
 		if c.fresh7 != nil && v == c.fresh7 {
@@ -920,4 +933,102 @@ func (c *fnCtx) useGoSem7() string {
 	}
 	c.gosem7 = true
 	return "GoSem7."
+}
+
+// ---------------------------------------------------------------------------
+// fmt.Sprintf("%0[1]*[2]b", width, x): EXTERNAL, its contract for exactly this format is GoSem7.sprintfBinPad.
+// go/ssa builds the variadic argument list in a fresh array `new [2]any (varargs)`: two element stores of
+// interface conversions, the slice of the whole array, the call — all in one block, the array used for nothing
+// else.  Those instructions have no Lean counterpart; the call becomes `GoSem7.sprintfBinPad width x`.
+
+const sprintfBinFormat = "%0[1]*[2]b"
+
+func (c *fnCtx) scanSprintf() {
+	for _, b := range c.f.Blocks {
+		if endsInPanic(b) {
+			continue
+		}
+		for _, in := range b.Instrs {
+			call, ok := in.(*ssa.Call)
+			if !ok {
+				continue
+			}
+			callee := call.Call.StaticCallee()
+			if callee == nil || callee.Pkg == nil || callee.Pkg.Pkg.Path() != "fmt" || callee.Name() != "Sprintf" || callee.Signature.Recv() != nil {
+				continue
+			}
+			bad := func(why string) { fail("fmt.Sprintf outside the one supported form (%s): %s", why, call) }
+			if len(call.Call.Args) != 2 {
+				bad("arguments")
+			}
+			k, ok := call.Call.Args[0].(*ssa.Const)
+			if !ok || k.Value == nil || !isString(k.Type()) || constant.StringVal(k.Value) != sprintfBinFormat {
+				bad("only the constant format " + sprintfBinFormat)
+			}
+			sl, ok := call.Call.Args[1].(*ssa.Slice)
+			if !ok || sl.Low != nil || sl.High != nil || sl.Max != nil || sl.Block() != b {
+				bad("argument list")
+			}
+			arr, ok := sl.X.(*ssa.Alloc)
+			if !ok || arr.Block() != b {
+				bad("argument list")
+			}
+			at, isArr := isArrayPtr(arr.Type())
+			if !isArr || at.Len() != 2 {
+				bad("two arguments are required")
+			}
+			if refs := sl.Referrers(); refs == nil || len(*refs) != 1 {
+				bad("the argument list is used elsewhere")
+			}
+			skip := []ssa.Instruction{arr, sl}
+			var vals [2]ssa.Value
+			for _, r := range *arr.Referrers() {
+				switch x := r.(type) {
+				case *ssa.DebugRef:
+				case *ssa.Slice:
+					if x != sl {
+						bad("the argument list is used elsewhere")
+					}
+				case *ssa.IndexAddr:
+					if x.X != ssa.Value(arr) || x.Block() != b {
+						bad("argument list")
+					}
+					var idx int64 = -1
+					for i := int64(0); i < 2; i++ {
+						if constIntIs(x.Index, i) {
+							idx = i
+						}
+					}
+					if idx < 0 || x.Referrers() == nil || len(*x.Referrers()) != 1 {
+						bad("argument list")
+					}
+					st, ok := (*x.Referrers())[0].(*ssa.Store)
+					if !ok || st.Addr != ssa.Value(x) || st.Block() != b || vals[idx] != nil {
+						bad("argument list")
+					}
+					mi, ok := st.Val.(*ssa.MakeInterface)
+					if !ok || mi.Block() != b || mi.Referrers() == nil || len(*mi.Referrers()) != 1 {
+						bad("argument list")
+					}
+					vals[idx] = mi.X
+					skip = append(skip, x, st, mi)
+				default:
+					bad("the argument list is used elsewhere")
+				}
+			}
+			if vals[0] == nil || vals[1] == nil {
+				bad("argument list")
+			}
+			if !isIntType(vals[0].Type()) || !isSigned(vals[0].Type()) {
+				bad("the width must be of a signed integer type")
+			}
+			if !isIntType(vals[1].Type()) || !isUnsigned(vals[1].Type()) {
+				bad("the value must be of an unsigned integer type")
+			}
+			for _, x := range skip {
+				c.sprintfSkip[x] = true
+			}
+			c.sprintfArgs[call] = vals
+		}
+	}
 }
